@@ -589,6 +589,74 @@ def with_extra_entries(ctx):
                 break
 
 
+def ncep_entries_stay(ctx):
+    """After with_extra_entries (process-wide extra entries are allowed from here on): in-stream style definitions that use the NCEP
+    convention - sequences that consist of a replication descriptor and its factor only - are registered.  Building templates
+    from lists that need the repair of such sequences is a READ of the tables: every registered sequence still expands to what
+    it expanded to before, and a list builds to the same template however many lists were built in between."""
+    from pybufrkit.tables import TableGroupCacheManager
+    from pybufrkit.descriptors import flat_member_ids
+    rng = ctx.rng
+    extra_b = {'048001': ['VERIF NCEP ELEMENT A', 'NUMERIC', 1, -100, 12, '', 0, 0],
+               '048002': ['VERIF NCEP ELEMENT B', 'CCITT IA5', 0, 0, 32, '', 0, 0]}
+    extra_d = {'360001': ['VERIF REP 1-BIT', ['101000', '031000']],
+               '360002': ['VERIF REP 8-BIT', ['101000', '031001']],
+               '360003': ['VERIF REP 16-BIT', ['101000', '031002']],
+               '361001': ['VERIF SEQ A', ['001001', '360002', '002001']],
+               '361002': ['VERIF SEQ B', ['360002', '012001']],
+               '361003': ['VERIF SEQ C', ['360001', '048001', '360003', '361002']],
+               '361004': ['VERIF SEQ D', ['048002', '361001', '360002', '361001']]}
+    try:
+        TableGroupCacheManager.invalidate()
+        TableGroupCacheManager.add_extra_entries(extra_b, extra_d)
+        tg = TableGroupCacheManager.get_table_group(master_table_version=33)
+    except Exception as e:
+        ctx.notes.append('ncep entries: registration unavailable: %r' % (e,))
+        ctx.count('ncep_registration_unavailable')
+        return
+    sids = sorted(int(k) for k in extra_d) + [301011, 301021, 302001]
+
+    def table_view():
+        out = {}
+        for sid in sids:
+            try:
+                out[sid] = list(flat_member_ids(tg.lookup(sid)))
+            except Exception as e:
+                out[sid] = 'raises ' + type(e).__name__
+        return out
+
+    def build(ids):
+        try:
+            return list(flat_member_ids(tg.template_from_ids(*ids)))
+        except Exception as e:
+            return 'raises ' + type(e).__name__
+    before = table_view()
+    lists = [[360001, 361001], [361002], [360002, 12001], [361001], [360001, 361001, 361002], [1001, 360003, 361003], [361003],
+             [360001, 361004], [361004, 361002], [360002, 361002, 360001, 361001], [101002, 361001], [360003, 361003, 361004]]
+    first = {}
+    order = list(range(len(lists))) * 2
+    rng.shuffle(order)
+    for n, li in enumerate(order):
+        ids = lists[li]
+        got = build(ids)
+        ctx.count('ncep_lists_built')
+        ctx.evaluated(('ncep', tuple(ids), n), True)
+        if li not in first:
+            first[li] = got
+        elif got != first[li]:
+            ctx.violate('ncep/same-list-builds-differently', 'descriptor list %r built a second time (after %d other lists) flattens to %r, the first '
+                        'time to %r' % (ids, n, got if isinstance(got, str) else got[:14], first[li] if isinstance(first[li], str) else first[li][:14]),
+                        dict(part='ncep', ids=ids, order=[lists[i] for i in order[:n + 1]]))
+            return
+        now = table_view()
+        if now != before:
+            bad = [s_ for s_ in sids if now[s_] != before[s_]]
+            ctx.violate('ncep/table-entry-changed-by-template-building', 'after building templates from %r the registered sequence %06d expands to %r '
+                        '(before: %r)' % ([lists[i] for i in order[:n + 1]][-3:], bad[0], now[bad[0]], before[bad[0]]),
+                        dict(part='ncep', built=[lists[i] for i in order[:n + 1]], sequence=bad[0]))
+            return
+
+
 def cli_tables(ctx):
     """`lookup` prints an element's Table B attributes, `info -t` the template of a file: both against the table files"""
     from mon.cli import run_cli
@@ -691,6 +759,8 @@ def run(ctx):
     cross_version(ctx)
     cli_tables(ctx)
     with_extra_entries(ctx)
+    if ctx.shard < 4 or not ctx.quick:
+        ncep_entries_stay(ctx)
 
 
 def replay(ctx, case):
